@@ -133,6 +133,7 @@ type Exec struct {
 	jsonTimeOf   map[string]string // nanosecond term -> token name
 	jsonUnsorted bool              // JSON with symbolic map keys was emitted on this path
 	globApps    [][2]string
+	globCompiles []string // pattern terms handed to glob.Compile / MustCompile on this path
 	maxRand     int
 	maxCex      int
 	tier        int
@@ -460,6 +461,10 @@ func (e *Exec) model() map[string]string {
 		q = append(q, "(globmatch "+g[0]+" "+g[1]+")", g[0], g[1], "(metafree "+g[0]+")")
 	}
 	nGlob := len(q)
+	for _, gp := range e.globCompiles {
+		q = append(q, "(globvalid "+gp+")", gp)
+	}
+	nValid := len(q)
 	litNames := e.solver.litNames()
 	q = append(q, litNames...)
 	e.solver.send("(get-value (" + strings.Join(q, " ") + "))")
@@ -473,7 +478,7 @@ func (e *Exec) model() map[string]string {
 		return m
 	}
 	litAbs := map[string]string{} // abstract value -> literal string
-	for i := nGlob; i < len(q); i++ {
+	for i := nValid; i < len(q); i++ {
 		litAbs[vals[i]] = e.solver.litOf(q[i])
 	}
 	strVals := map[string][]string{} // abstract value -> names
@@ -602,6 +607,17 @@ func (e *Exec) model() map[string]string {
 			}
 			for _, n := range names {
 				m[n] = pat
+			}
+		}
+	}
+	// realise invalid glob patterns: a pattern token the model calls syntactically invalid is spelled
+	// with an unclosed character class in front, which gobwas/glob rejects
+	for k := range e.globCompiles {
+		if vals[nGlob+2*k] == "false" {
+			for _, n := range strVals[vals[nGlob+2*k+1]] {
+				if !strings.HasPrefix(m[n], "[") {
+					m[n] = "[" + m[n]
+				}
 			}
 		}
 	}
